@@ -14,7 +14,7 @@ LIMIT = (1 << 14) - 1
 def miri_env():
     e = dict(os.environ)
     e.update({"MIRI_SYSROOT": SYSROOT, "CARGO_NET_OFFLINE": "true", "CARGO_TARGET_DIR": os.path.join(vf.CACHE, "target-miri"),
-              "RUSTFLAGS": f"--cfg {vf.GUARD}", "MIRIFLAGS": "-Zmiri-permissive-provenance -Zmiri-ignore-leaks -Zmiri-disable-isolation"})
+              "RUSTFLAGS": f"--cfg {vf.GUARD}", "MIRIFLAGS": "-Zmiri-permissive-provenance -Zmiri-ignore-leaks -Zmiri-disable-isolation -Zmiri-disable-stacked-borrows"})
     e.pop("RUSTUP_TOOLCHAIN", None)
     e.pop("RUST_BACKTRACE", None)
     return e
@@ -29,17 +29,20 @@ def ensure_sysroot():
             raise vf.Failure("broken_correspondence", "the Miri sysroot for i686 (32-bit execution of the real code) could not be built", out[-2000:])
 
 
-def _parse(stdout, stderr, njobs):
-    res, cur, nops = [], [], 0
+def _parse(stdout, stderr, njobs, ops_out=None):
+    res, cur, nops, ops = [], [], 0, []
     for l in stdout.splitlines():
         if l.startswith("OP "):
-            nops += 1
+            nops += 1; ops.append(l[3:])
         elif l.startswith("OB "):
             cur.append(l[3:])
         elif l == "DONE":
             if nops > len(cur):
                 cur.append("PANIC")
             res.append(cur); cur = []; nops = 0
+            if ops_out is not None:
+                ops_out.append(ops)
+            ops = []
     if len(res) != njobs:
         # Miri stops at the first undefined behaviour / abort: that is an observation about the code too
         if nops > len(cur):
@@ -199,6 +202,37 @@ def oracle(tree, ops):
         ans.append(node if line.startswith("VAL") else None)
         out.append(line)
     return out
+
+
+def run_jobs(lines, timeout=1500, procs=12):
+    """Adaptive histories (`JOB seed nops stack dochex pool treeflag -` lines of the reader child) on the 32-bit build:
+    returns [(ops, observations)] per line."""
+    ensure_sysroot()
+    cmd = ["cargo", "+nightly", "miri", "run", "--offline", "-q", "--target", TARGET, "--", "reader-child"]
+    cwd = os.path.join(vf.VERIF, "harness")
+    with vf.Lock("miri"):
+        p = subprocess.run(cmd, cwd=cwd, env=miri_env(), input="", capture_output=True, text=True, timeout=timeout)
+        if p.returncode != 0:
+            raise vf.Failure("broken_correspondence", "the reader harness does not build/run for the 32-bit target under Miri", (p.stderr or "")[-2500:])
+        nsh = max(1, min(procs, len(lines)))
+        shards = [[k for k in range(len(lines)) if k % nsh == j] for j in range(nsh)]
+        import threading
+        outs = {}
+        def work(sh):
+            q = subprocess.Popen(cmd, cwd=cwd, env=miri_env(), stdin=subprocess.PIPE, stdout=subprocess.PIPE, stderr=subprocess.PIPE, text=True)
+            try:
+                o, e = q.communicate("".join(lines[k] + "\n" for k in sh), timeout=timeout)
+            except subprocess.TimeoutExpired:
+                q.kill(); o, e = q.communicate()
+            ops = []
+            obs = _parse(o, e, len(sh), ops)
+            while len(ops) < len(obs):
+                ops.append([])
+            for k, ob, op in zip(sh, obs, ops):
+                outs[k] = (op, ob)
+        ths = [threading.Thread(target=work, args=(sh,)) for sh in shards]
+        [t.start() for t in ths]; [t.join() for t in ths]
+    return [outs.get(k, ([], [])) for k in range(len(lines))]
 
 
 def c11_cases(thorough=False):
